@@ -202,7 +202,7 @@ def main(tier):
                              md.DistanceMatcher.logprob_trans, md.DistanceMatcher.logprob_obs)
     insts = instances(tier)
     budget = 150 if tier == 'quick' else 1500
-    core_s = 16 * (150 if tier == 'quick' else 1500)   # total core-seconds for path exploration
+    core_s = 16 * (150 if tier == 'quick' else 900)   # total core-seconds for path exploration
     insts = [i + (budget,) for i in insts]
     shards = []
     for r in run_instances(run_instance, [i + ('split',) for i in insts]):
